@@ -13,6 +13,12 @@ class C03(PropBase):
         for t in v.order:
             for _ in range(n):
                 out.append(Case('obs', [['s', v.sid(t, rng, search_p=rng.choice([0, 0, 0.3]))]], 'structured'))
+        # a free last value that is the empty string (get_with(asset='') makes such Sids): parent / '' gives the Sid back
+        for t in v.order:
+            if v.alternatives(v.types[t][-1][1]) is None and len(v.types[t]) > 1:
+                for _ in range(max(2, n // 20)):
+                    segs = v.sid(t, rng).split('/')
+                    out.append(Case('obs', [['s', '/'.join(segs[:-1] + [''])]], 'structured'))
         for _ in range(n * 3):
             s = gen.mutate_string(v.sid(v.any_type(rng), rng), rng, v)
             if '?' not in s:
